@@ -41,9 +41,12 @@ chk("C02", "graph-smt", "translation_validation",
 chk("C03", "graph-smt", "other",
     "Exact, bounded: for BIT-typed programs (and, xor, and-xor, and-and, majority, vector and, and-sum; owners with at least two distinct parties; 6 output sets; 3 inline modes) and each observer party, the view (inputs, own randomness, "
     "PRF outputs under held keys, every value delivered at a Send(.,P) node, own output) is built from the real compile_context output in the three-view semantics with idealised PRFs; the unknown tape (<= 12 bits) is unrolled inside one SMT query that asks for "
-    "two other-party input vectors with the same output for the observer whose view-value counts differ. unsat = identical view distributions for every admissible pair. Wider types, shared inputs and larger tapes are outside the claim; solver models are not replayed by tape enumeration.",
+    "two other-party input vectors with the same output for the observer whose view-value counts differ. unsat = identical view distributions for every admissible pair. Solver models are replayed by enumerating the tape in the real three-party executor. "
+    "Second tier (fresh-mask simulation, DESIGN 11.6) for ring programs at u8..i128 and A2B / B2A / MixedMultiply / Truncate protocols: per observer every delivered element must be shown by the solver to carry a fresh uniform mask (injectivity; joint injectivity for oblivious-transfer groups), "
+    "to be determined by the observer's data and already justified messages (2-copy query) or, for a recipient, by its own output (injectivity of the locally recomputed output); a VIOLATION needs a deterministic distinguisher computable from the view (independent of the unknown tape: unsat; dependent on other-party inputs with equal own output: sat) "
+    "confirmed in the real three-party executor over several tapes; observers neither proved nor refuted are counted as undecided and are outside the claim, as are shared inputs, permutation/sort programs and larger exact tapes.",
     G_NOTE + " PRF outputs idealised as independent uniform bits per (key term, counter); PRF key hand-over messages dropped as bare random draws (checked not to occur in other messages).",
-    "SMT (z3 QF_BV) exact tape counting over the real compiled graph's view terms", "DESIGN.md §5 C03, §11")
+    "SMT (z3 QF_BV): exact tape counting over the real compiled graph's view terms (BIT programs) + solver-decided fresh-mask simulation with deterministic-distinguisher counterexamples (wide types, conversion/truncation/mixed-multiply protocols)", "DESIGN.md §5 C03, §11, §11.6")
 
 chk("C04", "graph-smt", "other",
     "(a) For every generated compiled program (ring templates, Call/Iterate wrappers in all 3 inline modes, bit-level protocol templates that request several masks from one key: OT, Truncate2K, A2B/B2A, permutation/sort; both the staged pre-optimiser graph and the final compile_context output) "
